@@ -295,17 +295,20 @@ def odf_contracts(reg):
                 layout[n] = "element"
             elif _is_strlist(st0, v):
                 layout[n] = "acc"
+            elif isinstance(v, VTuple):
+                layout[n] = ("tuple", [role(x) for x in v.items])
             elif isinstance(v, VRef) and st0.obj(v.ref).kind == "obj":
                 o = st0.obj(v.ref)
                 layout[n] = ("obj", o.cls, {f: role(x) for f, x in o.data.items()})
             else:
                 layout[n] = ("val", role(v))
     roles_found = [l[1] for l in layout.values() if isinstance(l, tuple) and l[0] == "val"] + \
+                  [r for l in layout.values() if isinstance(l, tuple) and l[0] == "tuple" for r in l[1]] + \
                   [r for l in layout.values() if isinstance(l, tuple) and l[0] == "obj" for r in l[2].values()]
-    if sorted(r for r in roles_found if r) != sorted(ODF_ROLES) or list(layout.values()).count("element") != 1 or list(layout.values()).count("acc") != 1:
+    if sorted(r for r in roles_found if r) != sorted(ODF_ROLES) or list(layout.values()).count("element") != 1 or list(layout.values()).count("acc") > 1:
         return [etext]
     e_name = next(n for n, l in layout.items() if l == "element")
-    a_name = next(n for n, l in layout.items() if l == "acc")
+    a_name = next((n for n, l in layout.items() if l == "acc"), None)          # None: the walk returns its text instead of appending
 
     def cfg(get, st):
         """The five configuration terms, in role order, from the helper's own arguments / locals."""
@@ -313,6 +316,10 @@ def odf_contracts(reg):
         for n, l in layout.items():
             if isinstance(l, tuple) and l[0] == "val" and l[1]:
                 found[l[1]] = get(n)
+            elif isinstance(l, tuple) and l[0] == "tuple":
+                for r, x in zip(l[1], get(n).items):
+                    if r:
+                        found[r] = x
             elif isinstance(l, tuple) and l[0] == "obj":
                 d = st.obj(get(n).ref).data
                 for f, r in l[2].items():
@@ -325,6 +332,10 @@ def odf_contracts(reg):
             return p_elem()
         if l == "acc":
             return p_strlist()
+        if l[0] == "tuple":
+            kinds = list(l[1])
+            return Maker(lambda ex, st, nm: VTuple([(VExt("StrSet", z3.Const(f"{nm}.{i}", STRSET)) if r == "skip_tags" else VStr(z3.String(f"{nm}.{i}")))
+                                                    for i, r in enumerate(kinds)]), desc="tuple of configuration values")
         if l[0] == "val":
             return p_strset() if l[1] == "skip_tags" else (p_str() if l[1] else Maker(lambda ex, st, nm: VUnk(nm), desc="any"))
         return p_obj(l[1], {f: (p_strset() if r == "skip_tags" else p_str()) for f, r in l[2].items()})
@@ -335,15 +346,25 @@ def odf_contracts(reg):
         return Conj([("parts==old+text+items-of-processed-children",
                       c1 == cc(c0, ODF_KIDS(e, lc.i, *cfg(lambda n: top(lc, n), lc.st))))])
 
-    append = under(
-        SHARED, "_append_element_text", helper,
-        params=[(n, maker(layout[n])) for n in hp],
-        ensures=[need_loops("children"), ("parts==old(parts)+odf_text(element)",
-                  X.robust(lambda c: cat_of(c.st, c.args[a_name]) == cc(cat_of(c.entry, c.args[a_name]),
-                                                                        ODF_TEXT(c.args[e_name].t, *cfg(lambda n: c.args[n], c.entry))))),],
-        modifies=(a_name,),
-        note="modular recursion through this contract; loop invariant over the processed prefix of a child list of symbolic length",
-    )
+    if a_name is None:
+        append = under(
+            SHARED, "_append_element_text", helper,
+            params=[(n, maker(layout[n])) for n in hp],
+            result_maker=lambda ex, st, ctx: VStr(z3.String(fresh_name("element_text"))),
+            ensures=[need_loops("children"), ("parts==old(parts)+odf_text(element)",        # same clause, functional form: result == odf_text(element)
+                                              X.robust(lambda c: c.result.t == ODF_TEXT(c.args[e_name].t, *cfg(lambda n: c.args[n], c.entry))))],
+            note="functional form of the walk (returns the text); modular recursion through this contract",
+        )
+    else:
+        append = under(
+            SHARED, "_append_element_text", helper,
+            params=[(n, maker(layout[n])) for n in hp],
+            ensures=[need_loops("children"), ("parts==old(parts)+odf_text(element)",
+                      X.robust(lambda c: cat_of(c.st, c.args[a_name]) == cc(cat_of(c.entry, c.args[a_name]),
+                                                                            ODF_TEXT(c.args[e_name].t, *cfg(lambda n: c.args[n], c.entry))))),],
+            modifies=(a_name,),
+            note="modular recursion through this contract; loop invariant over the processed prefix of a child list of symbolic length",
+        )
     append.loop_match = lambda ex, st, node, it: (matched(ex, LoopSpec(inv=inv, label="children"))
                                                   if isinstance(it, VExt) and it.sort == "Elem" and st.lookup(e_name) is not None
                                                   and it.t.eq(st.lookup(e_name).t) else None)
@@ -1058,11 +1079,11 @@ def builder_contracts(reg):
     out = []
     for name, extra in (("handle_starttag", [("tag", P_STR), ("attrs", P_ATTRS)]), ("handle_endtag", [("tag", P_STR)]),
                         ("handle_data", [("data", P_STR)]), ("handle_comment", [("data", P_STR)])):
-        ens = [("inside-removed-markup-tree-and-insertion-point-untouched", untouched)]
+        ens = [("inside-removed-markup-tree-and-insertion-point-untouched", X.robust(untouched))]
         if name == "handle_data":
-            ens.append(("visible-data-appended-at-the-insertion-point", at_insertion_point))
+            ens.append(("visible-data-appended-at-the-insertion-point", X.robust(at_insertion_point)))
         if name == "handle_comment":
-            ens = [("comments-change-nothing", lambda c: C.frame(c, ()))]
+            ens = [("comments-change-nothing", X.robust(lambda c: C.frame(c, ())))]
         out.append(FnContract(target=f"{HTML}::_HtmlTreeBuilder.{name}", params=[("self", C.html_self())] + extra, requires=req,
                               ensures=ens, modifies=("self",)))
 
@@ -1074,7 +1095,7 @@ def builder_contracts(reg):
         return z3.Implies(sd.t > 0, C.frame(c, C.skip_fields(C.EPUB, C.ECLS, c.ex.module.repo)))
     for name, extra in (("handle_starttag", [("tag", P_STR), ("attrs", P_ATTRS)]), ("handle_endtag", [("tag", P_STR)]), ("handle_data", [("data", P_STR)])):
         out.append(FnContract(target=f"{C.EPUB}::{C.ECLS}.{name}", params=[("self", C.epub_self())] + extra,
-                              ensures=[("inside-removed-markup-text-sinks-and-layout-state-untouched", e_untouched)], modifies=("self",)))
+                              ensures=[("inside-removed-markup-text-sinks-and-layout-state-untouched", X.robust(e_untouched))], modifies=("self",)))
     return out
 
 
